@@ -152,7 +152,8 @@ def finish(res: CheckResult, t0: float, seed: int, repo: str, digests: Dict[str,
         'wall_s': round(time.time() - t0, 3),
         'violations': len(violations),
     }
-    if not os.environ.get('VERIF_NOEVIDENCE'):
+    # the evidence file describes the run against /repo; analysing another tree (--repo, VERIF_REPO) leaves it alone
+    if not os.environ.get('VERIF_NOEVIDENCE') and os.path.realpath(repo) == os.path.realpath('/repo'):
         with open(os.path.join(ev_dir, f'{res.prop}.json'), 'w') as f:
             json.dump(evidence, f, indent=1, default=str)
     print(f'   obligations={len(res.obligations)} discharged={discharged} known={len(known_hits)} violations={len(violations)} '
